@@ -8,6 +8,7 @@ All statements hold for every program, namespace, fault plan and fuel.
 import DTML.Render
 import DTML.Props.C08
 import DTML.Props.C02
+import DTML.Lemmas.IBlock
 set_option linter.unusedVariables false
 namespace DTML.Props.C09
 open DTML.Render
@@ -407,5 +408,37 @@ theorem gen_lookup_is_model (env : Env) (fuel : Nat) (key : Text) (call : Bool) 
     GenNs.getitemLoopGen env fuel key call st.stack [] st = getitem env (fuel + 1) key call st ∧
     GenNs.instGetitemGen env v cache key tr = frameGet env (.inst v cache) key tr :=
   ⟨C02.gen_templatedict_getitem_is_model env fuel key call st, C02.gen_instancedict_getitem_is_model env v cache key tr⟩
+
+/-! ### The conditional of the model is the `'i'` block of the source
+
+`GenRender.iBlockGen` is regenerated on every run by translating the `'i'` branch of `render_blocks_` in /repo
+(harness/trans_render.py): `bs = len(block) - 1`, the cache pushed and popped in `try … finally`, `m = bs - 1`, the loop
+`while icond < m` over the cells of the compiled tuple (`block[icond + 1]` the condition - `md[cond]` with the KeyError of
+the condition's own name counting as false and the value stored in the cache, or `cond(md)` - `block[icond + 2]` the body,
+`m = -1; break`, `icond += 2`), and `if icond == m:` the else part.  On the cells a conditional compiles to
+(`encodeI`) it computes the model's `condLoop` inside its cache frame - what `renderBlk` does for `.cond` - for every run
+that does not end in "out of fuel" (with enough fuel none does: Lemmas/Fuel). -/
+theorem gen_if_block_is_model (env : Env) (fuel : Nat) (conds : List (Src × List Blk)) (els : Option (List Blk))
+    (st : St)
+    (h : Lemmas.IBlock.notOom (condLoop env fuel conds els { st with stack := .dict [] :: st.stack }).1) :
+    GenRender.iBlockGen env fuel (Lemmas.IBlock.encodeI conds els) st =
+      ((condLoop env fuel conds els { st with stack := .dict [] :: st.stack }).1,
+       { (condLoop env fuel conds els { st with stack := .dict [] :: st.stack }).2 with
+         stack := (condLoop env fuel conds els { st with stack := .dict [] :: st.stack }).2.stack.drop 1 }) :=
+  Lemmas.IBlock.iBlock_eq env fuel conds els st h
+
+/-- and that is exactly the conditional of the interpreter: `renderBlk` on a `.cond` block -/
+theorem gen_if_block_is_renderBlk (env : Env) (fuel : Nat) (conds : List (Src × List Blk)) (els : Option (List Blk))
+    (st : St)
+    (h : Lemmas.IBlock.notOom (condLoop env fuel conds els { st with stack := .dict [] :: st.stack }).1) :
+    GenRender.iBlockGen env fuel (Lemmas.IBlock.encodeI conds els) st = renderBlk env (fuel + 1) (.cond conds els) st := by
+  rw [gen_if_block_is_model env fuel conds els st h]
+  simp only [renderBlk]
+
+/-- non-vacuity: `<dtml-if a>A<dtml-else>B</dtml-if>` with `a` true -/
+example : (match (GenRender.iBlockGen {} 5 (Lemmas.IBlock.encodeI [(.name "a".toList, [.lit "A".toList])] (some [.lit "B".toList]))
+    { stack := [.dict [("a".toList, .int 1)]] }).1 with
+    | .ok ps => decide (ps = [Piece.text "A".toList])
+    | _ => false) = true := by decide +kernel
 
 end DTML.Props.C09
